@@ -34,6 +34,11 @@ pub enum Op {
     PullDown { a: u8, b: u8, wm: u16 },
     SnapOpen { slot: usize },
     SnapRelease { slot: usize },
+    /// open a scan at the newest snapshot and keep it (it pins its super version)
+    IterOpen { slot: usize },
+    /// take `n` items from the held scan's front or back
+    IterStep { slot: usize, n: u8, back: bool },
+    IterClose { slot: usize },
     Reopen,
     /// ascending keys; `None` = tombstone
     Ingest { items: Vec<(usize, Option<usize>)>, abandon: bool },
@@ -62,6 +67,9 @@ impl Op {
             Op::PullDown { .. } => "pull_down",
             Op::SnapOpen { .. } => "snap_open",
             Op::SnapRelease { .. } => "snap_release",
+            Op::IterOpen { .. } => "iter_open",
+            Op::IterStep { .. } => "iter_step",
+            Op::IterClose { .. } => "iter_close",
             Op::Reopen => "reopen",
             Op::Ingest { abandon: false, .. } => "ingest",
             Op::Ingest { abandon: true, .. } => "ingest_abandoned",
@@ -129,6 +137,9 @@ pub enum Kind {
     PullDown,
     SnapOpen,
     SnapRelease,
+    IterOpen,
+    IterStep,
+    IterClose,
     Reopen,
     Ingest,
     IngestAbandon,
@@ -189,7 +200,7 @@ pub fn profile(name: &str) -> Option<Profile> {
             weights: w(&[
                 (Put, 30), (Del, 10), (Batch, 6), (WeakDel, 3), (Rotate, 6), (Flush, 10), (FlushSealed, 2),
                 (Leveled, 10), (Major, 5), (MoveDown, 2), (PullDown, 2), (SnapOpen, 10), (SnapRelease, 6),
-                (Reopen, 1), (Ingest, 3), (DropRange, 3), (Clear, 1),
+                (Reopen, 1), (Ingest, 3), (DropRange, 3), (Clear, 1), (IterOpen, 3), (IterStep, 6), (IterClose, 2),
             ]),
             n_w: 4,
             n_d: 8,
@@ -203,7 +214,7 @@ pub fn profile(name: &str) -> Option<Profile> {
             weights: w(&[
                 (Put, 30), (Del, 12), (Batch, 8), (Rotate, 8), (Flush, 12), (FlushSealed, 2), (Leveled, 8),
                 (Major, 6), (MoveDown, 2), (PullDown, 2), (SnapOpen, 4), (SnapRelease, 2), (ScanBurst, 12),
-                (Ingest, 2),
+                (Ingest, 2), (IterOpen, 3), (IterStep, 8), (IterClose, 2),
             ]),
             n_g: 40,
             min_ops: 40,
@@ -287,7 +298,7 @@ pub fn profile(name: &str) -> Option<Profile> {
             weights: w(&[
                 (Put, 28), (Del, 8), (Batch, 5), (Rotate, 6), (Flush, 14), (FlushSealed, 3), (Leveled, 10),
                 (Major, 7), (MoveDown, 3), (PullDown, 2), (SnapOpen, 8), (SnapRelease, 6), (Reopen, 4),
-                (Ingest, 4), (IngestAbandon, 2), (DropRange, 5), (Clear, 3),
+                (Ingest, 4), (IngestAbandon, 2), (DropRange, 5), (Clear, 3), (IterOpen, 4), (IterStep, 8), (IterClose, 3),
             ]),
             n_g: 16,
             n_d: 10,
@@ -300,7 +311,7 @@ pub fn profile(name: &str) -> Option<Profile> {
             weights: w(&[
                 (Put, 34), (Del, 10), (Batch, 6), (Rotate, 5), (Flush, 12), (FlushSealed, 2), (Leveled, 10),
                 (Major, 8), (MoveDown, 2), (PullDown, 3), (SnapOpen, 5), (SnapRelease, 3), (Reopen, 4),
-                (Ingest, 5), (DropRange, 5), (Clear, 1),
+                (Ingest, 5), (DropRange, 5), (Clear, 1), (IterOpen, 2), (IterStep, 4), (IterClose, 2),
             ]),
             n_g: 18,
             n_d: 8,
@@ -480,6 +491,9 @@ pub fn gen_history(rng: &mut Rng, p: &Profile, uni: &Universe, thresholds: &[u32
             }
             x if x == Kind::SnapOpen as usize => Op::SnapOpen { slot: rng.usize(p.snap_slots.max(1)) },
             x if x == Kind::SnapRelease as usize => Op::SnapRelease { slot: rng.usize(p.snap_slots.max(1)) },
+            x if x == Kind::IterOpen as usize => Op::IterOpen { slot: rng.usize(2) },
+            x if x == Kind::IterStep as usize => Op::IterStep { slot: rng.usize(2), n: rng.range(1, 6) as u8, back: rng.chance(1, 3) },
+            x if x == Kind::IterClose as usize => Op::IterClose { slot: rng.usize(2) },
             x if x == Kind::Reopen as usize => Op::Reopen,
             x if x == Kind::Ingest as usize || x == Kind::IngestAbandon as usize => {
                 if gd.is_empty() {
